@@ -242,7 +242,9 @@ theorem reorderCore_projectAxis (axes : List Nat) (k' m : Nat) (S : FS) (hp : ax
     rw [hshape, getD_set_self _ _ _ _ (by simp [permIdx, hk'a])] at h1
     exact h1
   have hmsk : (reorderCore axes (projectAxis k m S)).msk j = (projectAxis k' m (reorderCore axes S)).msk j := by
-    rw [projectAxis_msk]
+    have e1 : (reorderCore axes (projectAxis k m S)).msk j
+        = anyL (boxIdx (S.shape.set k (m + 1))) (permIdx 0 axes) (projectAxis k m S).msk j := rfl
+    rw [e1, projectAxis_msk, projectAxis_msk]
     show anyL (boxIdx (S.shape.set k (m + 1))) (permIdx 0 axes) (projMsk k (S.shape.getD k 0) m S.msk) j
         = projMsk k' ((permIdx 0 axes S.shape).getD k' 0) m (anyL S.box (permIdx 0 axes) S.msk) j
     rw [hn]
@@ -318,7 +320,7 @@ theorem combineTwoCore_projectAxis (a b k m : Nat) (S : FS) (hb : b < S.ndim) (h
     rw [getD_set_self _ _ _ _ hk2len] at h1
     exact h1
   have hmsk : (combineTwoCore a b (projectAxis k m S)).msk j = (projectAxis k2 m (combineTwoCore a b S)).msk j := by
-    rw [combineTwoCore_msk, projectAxis_msk]
+    rw [combineTwoCore_msk, projectAxis_msk, projectAxis_msk]
     show (anyL (boxIdx (S.shape.set k (m + 1))) (merge2 a b) (projMsk k (S.shape.getD k 0) m S.msk) j
           || isCorner (mergeShape a b (S.shape.set k (m + 1))) j)
         = projMsk k2 ((mergeShape a b S.shape).getD k2 0) m (combineTwoCore a b S).msk j
@@ -359,7 +361,7 @@ theorem combineTwoCore_projectAxis (a b k m : Nat) (S : FS) (hb : b < S.ndim) (h
         (projMsk_iff _ _ _ _ _).2 ⟨h, hh, hw, by simpa using hc⟩
       rw [this] at hmi'; exact absurd hmi' (by simp)
     simp [this]
-  · rw [projW_zero_of_not_win _ _ _ _ hw]; simp
+  · rw [projW_zero_of_not_win _ _ _ _ (by omega) hw]; simp
 
 /-! ### masking the corners -/
 
@@ -367,6 +369,8 @@ theorem projectAxis_maskCorners (k m : Nat) (S : FS) (hk : k < S.ndim) (hm : m +
     Obs (projectAxis k m (maskCorners S)) (maskCorners (projectAxis k m S)) := by
   refine ⟨rfl, fun j hj => ⟨?_, fun _ => rfl⟩⟩
   have hj1 : j ∈ boxIdx (S.shape.set k (m + 1)) := hj
+  have e1 : (maskCorners (projectAxis k m S)).msk j = ((projectAxis k m S).msk j || isCorner (S.shape.set k (m + 1)) j) := rfl
+  rw [e1, projectAxis_msk, projectAxis_msk]
   show projMsk k (S.shape.getD k 0) m (fun i => S.msk i || isCorner S.shape i) j
       = (projMsk k (S.shape.getD k 0) m S.msk j || isCorner (S.shape.set k (m + 1)) j)
   rw [projMsk_or, projMsk_isCorner S.shape k m hk hm j hj1]
